@@ -31,9 +31,12 @@ _KIND = {
 
 class Val(dawgie.Value):
     VER = (1, 1, 0)
+    AE = None
+    KEY = None
 
     def __init__(self, content=None):
-        self._version_ = dawgie.VERSION(*type(self).VER)
+        ver = type(self).AE.ver.get(('v', type(self).KEY), type(self).VER) if type(self).AE else type(self).VER
+        self._version_ = dawgie.VERSION(*ver)
         self.content = content
 
     def features(self):
@@ -51,12 +54,16 @@ class AE:
         self.valclass = {}
         self.svclass = {}
         self.run_hook = None  # callable(alg instance, *run args)
+        self.ver = {}  # current versions, mutable: ('alg', tag) / ('sv', tag.sv) / ('v', tag.sv.v) -> (d, i, b)
+        self.mods = {}
         for a in spec:
+            if a['task'] not in self.mods:
+                self.mods[a['task']] = types.ModuleType(f'{PKG}.{a["task"]}')
+                sys.modules[f'{PKG}.{a["task"]}'] = self.mods[a['task']]
             self._make(a)
         self.factories = {e: [] for e in dawgie.Factories}
         for tn, fs in self.fs.items():
-            mod = types.ModuleType(f'{PKG}.{tn}')
-            sys.modules[f'{PKG}.{tn}'] = mod
+            mod = self.mods[tn]
             kinds = {a['kind'] for a in spec if a['task'] == tn}
             for k in ('task', 'analysis', 'regress'):
                 if k in kinds:
@@ -127,12 +134,18 @@ class AE:
         for sname, vnames in svspec.items():
             vcls = {}
             for vn in vnames:
-                vcls[vn] = type(f'Val_{tn}_{a["name"]}_{sname}_{vn}', (Val,), {'VER': tuple(vver.get((sname, vn), (1, 1, 0))), '__module__': f'{PKG}.{tn}'})
-                self.valclass[f'{tn}.{a["name"]}.{sname}.{vn}'] = vcls[vn]
+                vkey = f'{tn}.{a["name"]}.{sname}.{vn}'
+                vcls[vn] = type(f'Val_{tn}_{a["name"]}_{sname}_{vn}', (Val,), {'VER': tuple(vver.get((sname, vn), (1, 1, 0))), '__module__': f'{PKG}.{tn}', 'AE': self, 'KEY': vkey})
+                setattr(self.mods[tn], vcls[vn].__name__, vcls[vn])
+                self.valclass[vkey] = vcls[vn]
+                self.ver[('v', vkey)] = tuple(vver.get((sname, vn), (1, 1, 0)))
 
-            def sv_init(self, _v=vcls, _ver=tuple(svver.get(sname, (1, 1, 0)))):
+            svkey = f'{tn}.{a["name"]}.{sname}'
+            self.ver[('sv', svkey)] = tuple(svver.get(sname, (1, 1, 0)))
+
+            def sv_init(self, _v=vcls, _k=svkey):
                 dict.__init__(self)
-                self._version_ = dawgie.VERSION(*_ver)
+                self._version_ = dawgie.VERSION(*ae.ver[('sv', _k)])
                 for k, c in _v.items():
                     self[k] = c()
 
@@ -142,10 +155,13 @@ class AE:
                 {'__init__': sv_init, 'name': (lambda self, _n=sname: _n), 'view': (lambda self, caller, visitor: None), '__module__': f'{PKG}.{tn}'},
             )
             self.svclass[f'{tn}.{a["name"]}.{sname}'] = svc
+            setattr(self.mods[tn], svc.__name__, svc)
             svclasses.append(svc)
 
-        def alg_init(self, _ver=tuple(a.get('ver', (1, 1, 0)))):
-            self._version_ = dawgie.VERSION(*_ver)
+        self.ver[('alg', f'{tn}.{a["name"]}')] = tuple(a.get('ver', (1, 1, 0)))
+
+        def alg_init(self, _k=f'{tn}.{a["name"]}'):
+            self._version_ = dawgie.VERSION(*ae.ver[('alg', _k)])
             self._svs = [c() for c in svclasses]
 
         def deps(self, _a=a):
@@ -173,6 +189,7 @@ class AE:
         if a.get('events'):
             body['DAWGIE_SCHEDULE'] = [dawgie.EVENT(None, m) for m in a['events']]
         cls = type(f'Alg_{tn}_{a["name"]}', (base,), body)
+        setattr(self.mods[tn], cls.__name__, cls)
         self.classes[self.key(a)] = cls
         if tn not in self.fs:
             self.fs[tn] = dawgie.base.Factories(tn)
